@@ -31,13 +31,18 @@ def load_sidecars(mods):
             importlib.import_module(m)
 
 
-def check(pc, goal, timeout_ms=None, want_model=True):
+def check(pc, goal, timeout_ms=None, want_model=True, tracked=False):
     s = z3.Solver()
     s.set("timeout", timeout_ms or TIMEOUT_MS)
     s.set("random_seed", 0)
     s.set("mbqi", False)
-    for p in pc:
-        s.add(p)
+    for i, p in enumerate(pc):
+        if tracked and not z3.is_quantifier(p):
+            # portfolio variant: tracked assertions go through a different (less aggressive)
+            # pre-processing path, which decides some unfolding-heavy goals the default misses
+            s.assert_and_track(p, f"h!{i}")
+        else:
+            s.add(p)
     if goal is not None:
         s.add(z3.Not(goal))
     t0 = time.time()
@@ -217,12 +222,25 @@ def worker(task):
         # hypotheses is sound for a proof, and pure unfolding obligations go through at once);
         # then the full set with the whole budget
         light = tuple(p for j, p in enumerate(o.pc) if j < n_ax or not has_quantifier([p]))
-        r, dt, model, s = check(o.pc, o.goal, min(4000, timeout_ms))
-        if r == "unknown" and len(light) < len(o.pc):
-            r2, dt2, _, _ = check(light, o.goal, min(12000, timeout_ms))
-            dt += dt2
-            if r2 == "unsat":
-                r = "unsat"
+        goal_q = has_quantifier([o.goal])
+        r, dt, model, s = "unknown", 0.0, None, None
+        stages = [("full", 4000), ("light", 10000), ("light-tracked", 10000)] if goal_q else [("light", 10000), ("light-tracked", 10000), ("full", 4000)]
+        for which, budget in stages:
+            if which.startswith("light"):
+                if len(light) == len(o.pc) and which == "light":
+                    continue
+                r2, dt2, _, _ = check(light, o.goal, min(budget, timeout_ms), tracked=which.endswith("tracked"))
+                dt += dt2
+                if r2 == "unsat":
+                    r = "unsat"
+                    break
+            else:
+                r, dt2, model, s = check(o.pc, o.goal, min(budget, timeout_ms))
+                dt += dt2
+                if r != "unknown":
+                    break
+        if s is None:
+            r0, dt2, model0, s = check(o.pc, o.goal, 1) if r == "unsat" else (r, 0, None, None)
         long_pending = r == "unknown"
         backend = "z3-5.1.0"
         quant = None
